@@ -1246,6 +1246,363 @@ def stream_fits(run, hjobs=None, djobs=None, handles=None):
 
 # ------------------------------------------------------------------ main
 
+# ------------------------------------------------------------------ utils.py helpers (Model/MetricsUtils.v)
+
+UIMPORTS = IMPORTS + "\nFrom V Require Import Model.MetricsUtils Model.MetricsUtilsRun."
+_CLIP = [None]
+
+
+def clip_fn():
+    """np.clip inside numba-compiled code resolves to the overload of opendsm/common/utils.py"""
+    if _CLIP[0] is None:
+        import numba
+        from opendsm.common import utils  # noqa  (registers the overload)
+
+        @numba.njit
+        def _c16_clip(a, lo, hi):
+            return np.clip(a, lo, hi)
+        _CLIP[0] = _c16_clip
+    return _CLIP[0]
+
+
+def decade_of(a):
+    """k with 10^k <= a < 10^(k+1) for a positive Fraction"""
+    k = len(str(a.numerator)) - len(str(a.denominator))
+    while Fr(10) ** k > a:
+        k -= 1
+    while Fr(10) ** (k + 1) <= a:
+        k += 1
+    return k
+
+
+def near_decade(a, half=False):
+    """relative distance of a to the nearest 10^j (or 10^(j+1/2)) below 1e-9: log10 in binary64 cannot tell the side"""
+    k = decade_of(a)
+    if half:
+        sq = a * a
+        return any(abs(sq - Fr(10) ** (2 * j + 1)) <= Fr(1, 10**8) * sq for j in (k - 1, k, k + 1))
+    return any(abs(a - Fr(10) ** j) <= Fr(1, 10**9) * a for j in (k, k + 1))
+
+
+def oom_true(x, method):
+    a = abs(Fr(x))
+    k = decade_of(a)
+    if method == "floor":
+        return k
+    if method == "ceil":
+        return k if a == Fr(10) ** k else k + 1
+    return k if a * a < Fr(10) ** (2 * k + 1) else k + 1
+
+
+def uviol(run, call, defect, msg, case, obs=None, extra=None):
+    sig = {"call": call, "defect": defect}
+    sig.update(extra or {})
+    run.violation(sig, "C16 utils.%s: %s" % (call, msg), case=dict(case, stream="utils"), observation=obs, generator="c16.stream_utils")
+
+
+def gen_magnitudes(rng, n):
+    out = [10.0 ** k for k in range(0, 23)] + [10.0 ** -k for k in (1, 2, 3, 4, 5, 8, 9, 10)]
+    out += [3.16, 3.17, 31.6, 0.0316, 316227.0, 316228.0, 5.0, 250.0, 0.5, 99.0, 101.0, 999.9999999999999, 1e-310, 5e-324, 1e300,
+            1234.5678, 5678.1234, 0.0123456, 25.0, 35.0, 2.5, 0.125, 9.96, 0.0]
+    for _ in range(n):
+        out.append(rng.choice([1, -1]) * rng.randint(1000, 9999) / 1000.0 * 10.0 ** rng.randint(-12, 12))
+        out.append(float(rng.randint(1, 9999)) * 2.0 ** rng.randint(-20, 20))
+    return out
+
+
+def stream_utils(run, only=None):
+    from opendsm.common import utils as U
+    rng = run.rng
+    n = cnt(run, 60, 1500)
+    # ---------------- OoM
+    if only in (None, "OoM"):
+        xs = gen_magnitudes(rng, n)
+        terms, meta = [], []
+        for method in ("floor", "ceil", "round"):
+            arr = np.array(xs + [float("nan"), float("inf"), -float("inf")])
+            try:
+                with np.errstate(all="ignore"):
+                    res = [canon(v) for v in U.OoM(arr.copy(), method=method)]
+            except Exception as e:  # noqa
+                uviol(run, "OoM", "raised", "raised %s on a float array" % type(e).__name__, {"fn": "OoM", "method": method})
+                continue
+            for x, r in zip(list(arr), res):
+                run.count(("OoM", method, repr(x)))
+                case = {"fn": "OoM", "x": repr(float(x)), "method": method}
+                if x != x or abs(x) == float("inf"):
+                    if isinstance(r, float):
+                        uviol(run, "OoM", "finite result for a non-finite input", "OoM(%r, %s) = %r" % (x, method, r), case, r)
+                    continue
+                if x == 0.0:
+                    if r != 1.0:
+                        uviol(run, "OoM", "zero", "OoM(0) = %r, the code documents 1" % (r,), case, r)
+                else:
+                    a = abs(Fr(float(x)))
+                    exact_pow = any(a == Fr(10) ** j for j in range(0, 23))
+                    near = (not exact_pow) and (near_decade(a) or (method == "round" and near_decade(a, half=True)))
+                    want = oom_true(x, method)
+                    ok = isinstance(r, float) and (r == want or (near and abs(r - want) <= 1))
+                    if not ok:
+                        uviol(run, "OoM", "not the %s of log10|x|" % method,
+                              "OoM(%r, %s) = %r, but 10^%d <= |x| < 10^%d" % (x, method, r, decade_of(a), decade_of(a) + 1), case, r,
+                              {"method": method})
+                    if near:
+                        continue
+                if isinstance(r, float):
+                    terms.append("(O%s, %s, %s)" % (method.capitalize(), flit(x), obsv(r)))
+                    meta.append(case)
+        bad = run.coq_cases("utils_OoM", UIMPORTS, "", terms, "check_oom", shard=300)
+        if bad is None:
+            run.proof_ok = False
+        else:
+            for i in bad[:8]:
+                run.corr_failures.append({"stream": "utils_OoM", "case": meta[i]})
+    # ---------------- RoundToSigFigs
+    if only in (None, "RoundToSigFigs"):
+        xs = [x for x in gen_magnitudes(rng, n) if abs(x) > 1e-300 or x == 0.0]
+        terms, meta = [], []
+        for p in (1, 2, 3, 4, 6):
+            arr = np.array(xs)
+            try:
+                with np.errstate(all="ignore"):
+                    res = U.RoundToSigFigs(arr.copy(), p)
+                    res2 = U.RoundToSigFigs(np.array(res, dtype=float), p)
+            except Exception as e:  # noqa
+                uviol(run, "RoundToSigFigs", "raised", "raised %s" % type(e).__name__, {"fn": "RoundToSigFigs", "p": p})
+                continue
+            for x, r, r2 in zip(xs, res, res2):
+                r, r2 = canon(r), canon(r2)
+                run.count(("RoundToSigFigs", p, repr(x)))
+                case = {"fn": "RoundToSigFigs", "x": repr(float(x)), "p": p}
+                if not isinstance(r, float):
+                    uviol(run, "RoundToSigFigs", "non-finite result", "RoundToSigFigs(%r, %d) = %r" % (x, p, r), case, r)
+                    continue
+                if x == 0.0:
+                    if r != 0.0:
+                        uviol(run, "RoundToSigFigs", "zero", "RoundToSigFigs(0, %d) = %r" % (p, r), case, r)
+                    terms.append("(%s, %s, %s)" % (flit(x), zlit(p), obsv(r)))
+                    meta.append(case)
+                    continue
+                fx, fr_ = Fr(float(x)), Fr(r)
+                a = abs(fx)
+                kf, kr = oom_true(x, "floor"), oom_true(x, "round")
+                m = Fr(10) ** (p - 1 - kr)
+                y = fx * m
+                tie_risk = abs(abs(y - (y.numerator // y.denominator)) - Fr(1, 2)) < Fr(1, 10**6) and m < 1
+                near = near_decade(a, half=True)
+                # as coded: a multiple of 1/mags within half of it
+                q = fr_ * m
+                if not near and not tie_risk:
+                    if abs(q - round(q)) > Fr(1, 10**6) or abs(fr_ - fx) > (Fr(1, 2) + Fr(1, 10**6)) / m:
+                        uviol(run, "RoundToSigFigs", "not the nearest multiple of the unit of the last kept digit",
+                              "RoundToSigFigs(%r, %d) = %r, unit %s" % (x, p, r, float(1 / m)), case, r)
+                    terms.append("(%s, %s, %s)" % (flit(x), zlit(p), obsv(r)))
+                    meta.append(case)
+                # the statement: p significant figures, idempotent
+                unit = Fr(10) ** (kf - p + 1)
+                if abs(fr_ - fx) > unit / 2 * (1 + Fr(1, 10**9)) and not near:
+                    uviol(run, "RoundToSigFigs", "fewer than p significant figures",
+                          "RoundToSigFigs(%r, %d) = %r: off by more than half a unit of the %d-th significant digit" % (x, p, r, p), case, r,
+                          {"mantissa": ">=sqrt(10)" if kr != kf else "<sqrt(10)"})
+                if not (isinstance(r2, float) and abs(r2 - r) <= 1e-12 * abs(r)) and not near:
+                    moved = r != 0.0 and oom_true(r, "round") != kr
+                    uviol(run, "RoundToSigFigs", "not idempotent",
+                          "RoundToSigFigs(%r, %d) = %r, applied again = %r" % (x, p, r, r2), case, r2,
+                          {"cause": "the rounded value lies across sqrt(10)*10^k" if moved else "other"})
+        bad = run.coq_cases("utils_RoundToSigFigs", UIMPORTS, "", terms, "check_round_sig", shard=300)
+        if bad is None:
+            run.proof_ok = False
+        else:
+            for i in bad[:8]:
+                run.corr_failures.append({"stream": "utils_RoundToSigFigs", "case": meta[i],
+                                          "model": run.coq_eval(UIMPORTS, "", "round_sig (q_of_float %s) %s" % (flit(float(meta[i]["x"])), zlit(meta[i]["p"])))[-200:]})
+    # ---------------- np_clip
+    if only in (None, "np_clip"):
+        f = clip_fn()
+        terms, meta = [], []
+        for _ in range(max(6, n // 6)):
+            lo = rng.randint(-40, 40) / 4.0
+            hi = lo + rng.choice([0.0, 0.25, 3.0, 50.0, -1.0, -0.25])
+            vals = [rng.randint(-200, 200) / 4.0 for _ in range(8)] + [lo, hi, lo - 0.25, hi + 0.25, float("nan"), float("inf"), -float("inf"), 0.0]
+            out = [canon(v) for v in f(np.array(vals), lo, hi)]
+            for x, r in zip(vals, out):
+                run.count(("clip", repr(x), lo, hi))
+                case = {"fn": "np_clip", "x": repr(x), "lo": lo, "hi": hi}
+                if x != x:
+                    want = "nan"
+                elif lo <= hi:
+                    want = canon(min(max(x, lo), hi))
+                else:
+                    want = None           # a_min > a_max: no documented meaning; the model follows the code
+                if want is not None and r != want:
+                    uviol(run, "np_clip", "not min(max(x, a_min), a_max)", "clip(%r, %r, %r) = %r" % (x, lo, hi, r), case, r)
+                if abs(x) != float("inf"):
+                    terms.append("(%s, %s, %s, %s)" % ("nan" if x != x else flit(x), flit(lo), flit(hi), obsv(r)))
+                    meta.append(case)
+        bad = run.coq_cases("utils_np_clip", UIMPORTS, "", terms, "check_clip", shard=400)
+        if bad is None:
+            run.proof_ok = False
+        else:
+            for i in bad[:8]:
+                run.corr_failures.append({"stream": "utils_np_clip", "case": meta[i]})
+    # ---------------- fast_std
+    if only in (None, "fast_std"):
+        terms, meta = [], []
+        for k in range(max(10, n)):
+            K = rng.choice([0, 2, 5])
+            den = 2 ** K
+            nn = rng.choice([2, 3, 5, 8, 20, 40])
+            xs = [rng.randint(-300, 3000) for _ in range(nn)]
+            wkind = rng.choice(["none", "scalar", "equal", "normalised", "raw", "nearly_equal"])
+            mean = rng.choice([None, None, rng.randint(-300, 3000)])
+            wden, ws = 1, None
+            if wkind == "scalar":
+                warg, ws = float(rng.choice([1, 2.5])), None
+            elif wkind == "equal":
+                ws, wden = [3] * nn, 4
+            elif wkind == "normalised":
+                wden = 2 ** 10
+                cuts = sorted(rng.sample(range(1, wden), nn - 1))
+                ws = [b - a for a, b in zip([0] + cuts, cuts + [wden])]
+            elif wkind == "raw":
+                ws, wden = [rng.randint(1, 9) for _ in range(nn)], rng.choice([1, 2])
+            elif wkind == "nearly_equal":
+                wden = 2 ** 40
+                ws = [wden // 2 + rng.randint(0, 2000) for _ in range(nn)]       # |w_i - w_0| < 1e-8
+            x = np.array([v / den for v in xs], dtype=float)
+            if wkind == "none":
+                warg = None
+            elif wkind != "scalar":
+                warg = np.array([w / wden for w in ws], dtype=float)
+            try:
+                with np.errstate(all="ignore"):
+                    r = canon(U.fast_std(x.copy(), None if warg is None else (warg if isinstance(warg, float) else warg.copy()),
+                                         None if mean is None else mean / den))
+            except Exception as e:  # noqa
+                r = "raise"
+            run.count(("fast_std", k, wkind, mean is None))
+            run.dist("fast_std weights", wkind)
+            case = {"fn": "fast_std", "den": den, "x": xs, "weights": wkind, "w": ws, "wden": wden, "mean": mean}
+            X = [Fr(v, den) for v in xs]
+            W = None if ws is None else [Fr(w, wden) for w in ws]
+            unweighted = W is None or len(W) == 1 or all(abs(w - W[0]) <= Fr(1, 10**8) for w in W)
+            if unweighted:
+                mu = sum(X) / nn if mean is None else Fr(mean, den)
+                var = sum((v - mu) ** 2 for v in X) / nn
+            else:
+                mu = sum(w * v for w, v in zip(W, X)) / sum(W) if mean is None else Fr(mean, den)
+                sw = sum(W)
+                Wn = [w / sw for w in W] if (sw < 1 - Fr(1, 10**6) or sw > 1 + Fr(1, 10**6)) else W
+                var = sum(w * (v - mu) ** 2 for w, v in zip(Wn, X)) / (1 - Fr(1, nn))
+            if not isinstance(r, float) or r < 0 or not close(Fr(r) ** 2, var):
+                uviol(run, "fast_std", "not the root of the variance", "fast_std = %r, sqrt(variance) = %.12g (%s weights, mean %s)" % (
+                    r, float(fsqrt(var)), wkind, "given" if mean is not None else "computed"), case, r, {"weights": "unweighted" if unweighted else "weighted"})
+            if isinstance(r, float):
+                terms.append("{| fc_den := %d%%positive; fc_x := %s; fc_w := %s; fc_wden := %d%%positive; fc_mean := %s; fc_exp := %s |}" % (
+                    den, coq_list([zlit(v) for v in xs]), "None" if ws is None else "(Some %s)" % coq_list([zlit(w) for w in ws]), wden,
+                    "None" if mean is None else "(Some %s)" % zlit(mean), obsv(r)))
+                meta.append(case)
+        bad = run.coq_cases("utils_fast_std", UIMPORTS, "", terms, "check_fast_std", shard=200)
+        if bad is None:
+            run.proof_ok = False
+        else:
+            for i in bad[:8]:
+                run.corr_failures.append({"stream": "utils_fast_std", "case": meta[i]})
+    # ---------------- median_absolute_deviation
+    if only in (None, "median_absolute_deviation"):
+        terms, meta = [], []
+        kq = Fr(float(U.MAD_k))
+        for k in range(max(10, n)):
+            den = 2 ** rng.choice([0, 3])
+            nn = rng.choice([1, 2, 3, 4, 5, 9, 20, 41])
+            xs = [rng.choice([rng.randint(-50, 50), rng.randint(-5000, 5000), 7]) for _ in range(nn)]
+            mu = rng.choice([None, None, rng.randint(-60, 60)])
+            r = canon(U.median_absolute_deviation(np.array([v / den for v in xs], dtype=float), None if mu is None else mu / den))
+            run.count(("mad", k))
+            case = {"fn": "median_absolute_deviation", "den": den, "x": xs, "median": mu}
+            X = [Fr(v, den) for v in xs]
+            m0 = Textbook.quantile(X, Fr(1, 2)) if mu is None else Fr(mu, den)
+            want = kq * Textbook.quantile([abs(v - m0) for v in X], Fr(1, 2))
+            if not isinstance(r, float) or not close(Fr(r), want, max(abs(v) for v in X) + abs(m0)):
+                uviol(run, "median_absolute_deviation", "not MAD_k * median(|x - median|)", "reported %r, textbook %.12g" % (r, float(want)), case, r)
+            if isinstance(r, float):
+                terms.append("{| mc_den := %d%%positive; mc_x := %s; mc_mu := %s; mc_k := %s; mc_exp := %s |}" % (
+                    den, coq_list([zlit(v) for v in xs]), "None" if mu is None else "(Some %s)" % zlit(mu), flit(U.MAD_k), obsv(r)))
+                meta.append(case)
+        bad = run.coq_cases("utils_mad", UIMPORTS, "", terms, "check_mad", shard=300)
+        if bad is None:
+            run.proof_ok = False
+        else:
+            for i in bad[:8]:
+                run.corr_failures.append({"stream": "utils_mad", "case": meta[i]})
+    # ---------------- t_stat / unc_factor plumbing (scipy's t.ppf replaced by a recorder)
+    if only in (None, "t_stat", "unc_factor"):
+        real = U.t_dist
+        rec = []
+
+        class Recorder:
+            @staticmethod
+            def ppf(q, df, loc=0, scale=1):
+                rec.append((float(q), float(df), float(loc), float(scale)))
+                return Recorder.value
+        tterms, uterms, tmeta, umeta = [], [], [], []
+        try:
+            U.t_dist = Recorder
+            for k in range(max(10, n // 2)):
+                alpha = rng.choice([0.1, 0.05, 0.01, 0.32, 0.5, 0.2])
+                nsz = rng.choice([2, 3, 10, 100, 365, 8760])
+                tail = rng.choice([1, 2, 2, "one", "two", 3, "both"])
+                Recorder.value = rng.choice([1.75, 2.0, 0.5, -1.25, 12.0])
+                del rec[:]
+                try:
+                    got = canon(U.t_stat(alpha, nsz, tail=tail))
+                    args = rec[-1]
+                except UnboundLocalError:
+                    got, args = "raise", None
+                run.count(("t_stat", alpha, nsz, str(tail)))
+                case = {"fn": "t_stat", "alpha": alpha, "n": nsz, "tail": tail}
+                tnum = 1 if tail in (1, "one") else 2 if tail in (2, "two") else 3
+                if tnum == 3:
+                    if got != "raise":
+                        uviol(run, "t_stat", "unknown tail accepted", "t_stat(tail=%r) returned %r" % (tail, got), case, got)
+                else:
+                    perc = 1 - Fr(alpha) if tnum == 1 else 1 - Fr(alpha) / 2
+                    if args is None or not close(Fr(args[0]), perc) or args[1] != nsz - 1 or args[2:] != (0.0, 1.0) or got != Recorder.value:
+                        uviol(run, "t_stat", "wrong quantile request", "t_stat(%r, %r, tail=%r) asked t.ppf%r, expected (%s, %d, 0, 1)" % (
+                            alpha, nsz, tail, args, float(perc), nsz - 1), case, args)
+                tterms.append("(%s, %s, %s, %s, %s)" % (flit(alpha), zlit(nsz), zlit(tnum), obsv("raise" if args is None else args[0]),
+                                                         obsv(None if args is None else args[1])))
+                tmeta.append(case)
+                # unc_factor with the default alpha
+                itv = rng.choice(["CI", "PI", "PI", "XX"])
+                del rec[:]
+                u = canon(U.unc_factor(nsz, interval=itv, alpha=alpha))
+                run.count(("unc_factor", alpha, nsz, itv, Recorder.value))
+                ucase = {"fn": "unc_factor", "alpha": alpha, "n": nsz, "interval": itv, "t": Recorder.value}
+                t = Fr(Recorder.value)
+                if itv == "XX":
+                    if u is not None:
+                        uviol(run, "unc_factor", "unknown interval accepted", "unc_factor(interval='XX') = %r" % (u,), ucase, u)
+                else:
+                    base = Fr(0) if itv == "CI" else t
+                    ok = isinstance(u, float) and close((Fr(u) - base) ** 2 * nsz, t * t, 0) and ((Fr(u) - base > 0) == (t > 0)) \
+                        and rec and close(Fr(rec[-1][0]), 1 - Fr(alpha) / 2) and rec[-1][1] == nsz - 1
+                    if not ok:
+                        uviol(run, "unc_factor", "wrong factor", "unc_factor(%d, %s) = %r with t = %r" % (nsz, itv, u, Recorder.value), ucase, u,
+                              {"interval": itv})
+                uterms.append("(%s, %s, %s, %s)" % (flit(Recorder.value), zlit(nsz), {"CI": "CI", "PI": "PI"}.get(itv, "OtherInterval"), obsv(u)))
+                umeta.append(ucase)
+        finally:
+            U.t_dist = real
+        for name, terms, meta, fn in (("utils_t_stat", tterms, tmeta, "check_t_args"), ("utils_unc_factor", uterms, umeta, "check_unc")):
+            bad = run.coq_cases(name, UIMPORTS, "", terms, fn, shard=400)
+            if bad is None:
+                run.proof_ok = False
+            else:
+                for i in bad[:8]:
+                    run.corr_failures.append({"stream": name, "case": meta[i]})
+
+
 SCALE = float(os.environ.get("C16_SCALE", "1"))      # development aid: shrink the generated volume
 
 
@@ -1280,7 +1637,7 @@ def main():
     run.cov["trusted_base"] += ["harness/c16.py (generators, adapters, canonicalisation, Textbook oracle in Python fractions)",
                                 "pandas / numpy semantics (isfinite filter, var(ddof=0), quantile 'linear', corr, autocorr) re-specified in Model/Metrics.v"]
     run.check_proofs("Properties/C16.v", ["Proofs/MetricsProofs.v", "Proofs/MetricsRealProofs.v"])
-    run.ensure_models(["Model/MetricsRun.v", "Model/CasesLib.v"])
+    run.ensure_models(["Model/MetricsRun.v", "Model/MetricsUtilsRun.v", "Model/CasesLib.v"])
     pol, wit = probe_policy()
     run.cov["division_policy"] = {"modelled_as": pol, "witnesses": {"_safe_divide(-5,-1)": wit[0], "_safe_divide(-5,0.0005)": wit[1],
                                                                    "_safe_divide(0.005,0)": wit[2]}}
@@ -1292,6 +1649,8 @@ def main():
     corpus = corpus_cases()
     stream_safe_divide(run)
     phase(run, "safe_divide done")
+    stream_utils(run)
+    phase(run, "utils done")
     # data objects first, then the worker pool (workers inherit them)
     hourly_data_object()
     daily_data_object(False)
@@ -1351,6 +1710,8 @@ def replay(run, c):
         stream_daily_stub(run, [c["case"]])
     elif s == "reporting":
         stream_reporting(run, [c["case"]])
+    elif s == "utils":
+        stream_utils(run, only=c.get("fn"))
     elif s == "hourly_fit":
         stream_fits(run, hjobs=[tuple(c["job"])], djobs=[])
     elif s == "daily_fit":
